@@ -116,3 +116,106 @@ Proof.
   exists 3, {| t_conn := None; t_me := 20; t_rest := [7]; t_pc := PLeaveN1 8 1 20 true 0 |}.
   split; [vm_compute; left; reflexivity|]. split; [reflexivity|]. split; [reflexivity|]. left. left. reflexivity.
 Qed.
+
+(* ---------- C17: the modulator's private push ---------- *)
+Lemma nodup_app {A} (l1 l2 : list A) : NoDup l1 -> NoDup l2 -> (forall x, In x l1 -> ~ In x l2) -> NoDup (l1 ++ l2).
+Proof.
+  induction l1 as [|a r IH]; intros H1 H2 Hd; cbn [app]; [exact H2|]. inversion H1 as [|? ? Ha Hr]; subst. constructor.
+  - rewrite in_app_iff. intros [H|H]; [exact (Ha H)|]. apply (Hd a); [left; reflexivity|exact H].
+  - apply IH; [exact Hr|exact H2|]. intros x Hx. apply Hd. right. exact Hx.
+Qed.
+
+Lemma nodup_map {A B} (f : A -> B) l : (forall x y, f x = f y -> x = y) -> NoDup l -> NoDup (map f l).
+Proof.
+  intros Hf. induction l as [|a r IH]; intro H; cbn [map]; [constructor|]. inversion H as [|? ? Ha Hr]; subst. constructor; [|apply IH; exact Hr].
+  intro X. apply in_map_iff in X. destruct X as (y&E&Hy). apply Hf in E. subst. exact (Ha Hy).
+Qed.
+
+Lemma nodup_filter {A} (f : A -> bool) l : NoDup l -> NoDup (filter f l).
+Proof.
+  induction l as [|a r IH]; intro H; cbn [filter]; [constructor|]. inversion H as [|? ? Ha Hr]; subst.
+  destruct (f a); [|apply IH; exact Hr]. constructor; [|apply IH; exact Hr]. intro X. apply filter_In in X. apply Ha. apply X.
+Qed.
+
+Lemma nodup_flat_map {A B} (f : A -> list B) l :
+  NoDup l -> (forall u, In u l -> NoDup (f u)) ->
+  (forall u v x, In u l -> In v l -> In x (f u) -> In x (f v) -> u = v) -> NoDup (flat_map f l).
+Proof.
+  induction l as [|a r IH]; intros Hl Hf Hd; cbn [flat_map]; [constructor|]. inversion Hl as [|? ? Ha Hr]; subst.
+  apply nodup_app.
+  - apply Hf. left. reflexivity.
+  - apply IH; [exact Hr| |].
+    + intros u Hu. apply Hf. right. exact Hu.
+    + intros u v x Hu Hv. apply Hd; right; assumption.
+  - intros x Hx Hx'. apply in_flat_map in Hx'. destruct Hx' as (v&Hv&Hxv).
+    assert (a = v) by (apply (Hd a v x); [left; reflexivity|right; exact Hv|exact Hx|exact Hxv]). subst. exact (Ha Hv).
+Qed.
+
+Lemma In_dedup x l : In x (dedup l) <-> In x l.
+Proof.
+  induction l as [|a r IH]; cbn [dedup In]; [tauto|]. rewrite In_del, IH. split; [tauto|].
+  intros [H|H]; [left; exact H|]. destruct (N.eq_dec a x) as [E|E]; [left; exact E|right; split; [exact H|congruence]].
+Qed.
+
+Lemma NoDup_dedup l : NoDup (dedup l).
+Proof.
+  induction l as [|a r IH]; cbn [dedup]; constructor.
+  - rewrite In_del. intros [_ H]. apply H. reflexivity.
+  - unfold del. apply nodup_filter. exact IH.
+Qed.
+
+(* the router's table lists a connection at most once *)
+Definition RegND (g : gst) : Prop := RegInv g /\ forall u, NoDup (reg g u).
+
+Lemma regnd_cstep cf s e : RegND (cg s) -> RegND (cg (fst (cstep cf s e))).
+Proof.
+  intros [HR HN]. split; [apply reg_cstep; exact HR|].
+  destruct e as [c u ex|c r|t ok hint|c hint|t|ts pl]; unfold cstep; cbv zeta; [ | | | | |exact HN].
+  - destruct (cuser (cg s) c) eqn:Hn; [exact HN|]. destruct (ex && _); [exact HN|]. cbn [fst cg].
+    unfold set_cuser, set_reg. cbn [reg]. intro u'. unfold upd. destruct (u' =? u); [|apply HN].
+    apply nodup_app; [apply HN|constructor; [intros []|constructor]|].
+    intros x Hx [<-|[]]. apply HR in Hx. congruence.
+  - destruct (cuser (cg s) c); exact HN.
+  - destruct (tlookup t (tasks s)) as [k|]; [|exact HN].
+    pose proof (frame_seg cf t (t_conn k) (t_me k) (cg s) (t_pc k) ok hint) as [Hr _].
+    destruct (seg cf t (t_conn k) (t_me k) (cg s) (t_pc k) ok hint) as [[g' p] os]. cbn [fst cg] in *. rewrite Hr. exact HN.
+  - destruct (cuser (cg s) c) as [u|]; [|exact HN].
+    destruct (fold_frame c (tasks s) (cg s)) as (_&_&Hr&_).
+    match type of Hr with reg ?x = _ => set (g1 := x) in * end.
+    assert (H1 : forall u', NoDup (upd (reg g1) u (del c (reg g1 u)) u')).
+    { intro u'. unfold upd. rewrite Hr. destruct (u' =? u); [|apply HN]. unfold del. apply nodup_filter. apply HN. }
+    destruct (isnil _); cbn [fst cg]; unfold set_idx, set_cuser, set_reg; cbn [reg]; exact H1.
+  - destruct (tlookup t (tasks s)) as [k|]; [|exact HN]. destruct (t_conn k); [|exact HN]. cbn [fst cg].
+    destruct (release_frame (cg s) k) as (_&_&Hr&_). rewrite Hr. exact HN.
+Qed.
+
+Lemma regnd_reach cf es : RegND (cg (cstate_after cf es)).
+Proof.
+  unfold cstate_after. apply (crun_inv cf (fun s => RegND (cg s))).
+  - intros s e. apply regnd_cstep.
+  - split; [|intro u; constructor]. intros c u. cbn. split; [contradiction|discriminate].
+Qed.
+
+(* C17 under interleaving: a private payload pushed by the modulator goes, at that very moment, to every connection
+   registered for each named user, once each however often the user is named, to nobody else, and changes nothing *)
+Theorem conc_direct_exact cf es targets payload :
+  let s := cstate_after cf es in
+  let r := cstep cf s (EDirect targets payload) in
+  fst r = s /\
+  (forall o, In o (snd r) -> exists c, o = ODirect c payload) /\
+  (forall c, In (ODirect c payload) (snd r) <-> exists u, In u targets /\ In c (reg (cg s) u)) /\
+  (forall c u, In u targets -> In c (reg (cg s) u) -> cuser (cg s) c = Some u) /\
+  NoDup (snd r).
+Proof.
+  intros s. cbv zeta. destruct (regnd_reach cf es) as [HR HN]. fold s in HR, HN. cbn [cstep fst snd].
+  split; [reflexivity|]. split; [intros o; apply direct_outs_only|]. unfold direct_outs. split; [|split].
+  - intro c. rewrite in_flat_map. split.
+    + intros (u&Hu&Hc). apply in_map_iff in Hc. destruct Hc as (c'&E&Hc). injection E as ->. exists u. rewrite In_dedup in Hu. auto.
+    + intros (u&Hu&Hc). exists u. rewrite In_dedup. split; [exact Hu|]. apply in_map_iff. exists c. auto.
+  - intros c u _ Hc. apply HR. exact Hc.
+  - apply nodup_flat_map.
+    + apply NoDup_dedup.
+    + intros u _. apply nodup_map; [|apply HN]. intros x y E. injection E as ->. reflexivity.
+    + intros u v x _ _ Hu Hv. apply in_map_iff in Hu. destruct Hu as (c&<-&Hu). apply in_map_iff in Hv. destruct Hv as (c'&E&Hv).
+      injection E as ->. apply HR in Hu. apply HR in Hv. congruence.
+Qed.
